@@ -85,13 +85,13 @@ Qed.
 Lemma resume_not_suspended : forall s k c, get k (cos s) = Some c -> co_st c <> Suspended ->
   co_resume k [] s = (CErr MCO_NOT_SUSPENDED, s).
 Proof.
-  intros s k c G N. unfold co_resume, mco_resume. rewrite G.
+  intros s k c G N. unfold co_resume, co_resume_with, mco_resume. rewrite G.
   destruct (cstate_eqb (co_st c) Suspended) eqn:E; [apply cstate_eqb_eq in E; contradiction|].
   simpl. destruct RESUME_ROLLS_BACK_ARGS; reflexivity.
 Qed.
 
 Lemma resume_nil : forall s k, get k (cos s) = None -> co_resume k [] s = (CErr MCO_INVALID_COROUTINE, s).
-Proof. intros s k G. unfold co_resume, mco_resume. rewrite G. simpl. destruct RESUME_ROLLS_BACK_ARGS; reflexivity. Qed.
+Proof. intros s k G. unfold co_resume, co_resume_with, mco_resume. rewrite G. simpl. destruct RESUME_ROLLS_BACK_ARGS; reflexivity. Qed.
 
 Lemma current_running : forall s k, Inv s -> current s = Some k ->
   exists c, get k (cos s) = Some c /\ co_st c = Running.
@@ -114,13 +114,13 @@ Proof. intros s vals E. unfold co_yield. rewrite E. reflexivity. Qed.
 Lemma destroy_active : forall s k c, get k (cos s) = Some c -> (co_st c = Running \/ co_st c = Normal) ->
   co_destroy k s = (CErr MCO_INVALID_OPERATION, s).
 Proof.
-  intros s k c G H. unfold co_destroy. rewrite destroy_order_fixed, andb_false_r.
+  intros s k c G H. unfold co_destroy, co_destroy_with. rewrite destroy_order_fixed, andb_false_r.
   unfold mco_destroy. rewrite G. destruct H as [H|H]; rewrite H; reflexivity.
 Qed.
 
 Lemma destroy_nil : forall s k, get k (cos s) = None -> co_destroy k s = (CErr MCO_INVALID_COROUTINE, s).
 Proof.
-  intros s k G. unfold co_destroy. rewrite destroy_order_fixed, andb_false_r.
+  intros s k G. unfold co_destroy, co_destroy_with. rewrite destroy_order_fixed, andb_false_r.
   unfold mco_destroy. rewrite G. reflexivity.
 Qed.
 
@@ -129,7 +129,7 @@ Lemma destroy_idle : forall s k c, get k (cos s) = Some c -> (co_st c = Suspende
   (gcon s = true -> co_reg c = true) ->
   co_destroy k s = (COk, set_cos s (del k (cos s))).
 Proof.
-  intros s k c G H R. unfold co_destroy. rewrite destroy_order_fixed, andb_false_r.
+  intros s k c G H R. unfold co_destroy, co_destroy_with. rewrite destroy_order_fixed, andb_false_r.
   unfold mco_destroy. rewrite G.
   replace (cstate_eqb (co_st c) Suspended || cstate_eqb (co_st c) Dead) with true
     by (destruct H as [H|H]; rewrite H; reflexivity).
@@ -199,7 +199,7 @@ Proof.
     destruct (mco_pop k false len s) as [[e s1] d] eqn:Q. inversion H; subst.
     eapply mco_pop_err; eauto. eapply cres_of_err; eauto.
   - (* destroy *)
-    inversion H as [H1]; clear H. unfold co_destroy in H1.
+    inversion H as [H1]; clear H. unfold co_destroy, co_destroy_with in H1.
     rewrite destroy_order_fixed, andb_false_r in H1.
     destruct (mco_destroy k s) as [e s2] eqn:D.
     destruct (is_success e) eqn:Es.
@@ -241,7 +241,7 @@ Proof.
     simpl in R. discriminate.
   - f_equal. f_equal.
     (* which error: the push did not fail, so it is the state check of minicoro.resume *)
-    unfold co_resume in H. rewrite resume_rolls_back in H.
+    unfold co_resume, co_resume_with in H. rewrite resume_rolls_back in H.
     destruct (match vals with [] => (COk, s) | _ :: _ => co_push k vals s end) as [r1 s1] eqn:Pp.
     assert (R1 : r1 = COk).
     { destruct vals; [inversion Pp; reflexivity|]. specialize (P (match r1 with CErr x => x | _ => MCO_SUCCESS end)).
@@ -257,4 +257,23 @@ Proof.
     simpl in R. inversion R; subst e1 s2. simpl in H.
     destruct vals; [inversion H; reflexivity|].
     destruct (mco_pop k false (List.length (List.concat (l :: vals))) s1) as [[? ?] ?]. inversion H. reflexivity.
+Qed.
+
+(* ---- the two repairs are NEEDED: under the other policy of each scraped flag the statement is false *)
+(* old order of coroutine.destroy (unregister first), GC build: the refused destroy of the running coroutine changes the state *)
+Lemma destroy_order_needed :
+  exists s k e s', co_destroy_with true k s = (CErr e, s') /\ s' <> s.
+Proof.
+  exists (fst (run [OCreate 0 [] false; OResume 0 []] (init true))), 0, MCO_INVALID_OPERATION.
+  eexists. split; [vm_compute; reflexivity|].
+  intro H. apply (f_equal (fun s => option_map co_reg (get 0 (cos s)))) in H. vm_compute in H. discriminate.
+Qed.
+
+(* coroutine.resume without the rollback: a refused resume WITH an argument changes the state *)
+Lemma resume_rollback_needed :
+  exists s k vals e s', co_resume_with false k vals s = (CErr e, s') /\ s' <> s.
+Proof.
+  exists (fst (run [OCreate 0 [] false; OResume 0 []] (init false))), 0, [[7%Z]], MCO_NOT_SUSPENDED.
+  eexists. split; [vm_compute; reflexivity|].
+  intro H. apply (f_equal (fun s => option_map co_stored (get 0 (cos s)))) in H. vm_compute in H. discriminate.
 Qed.
